@@ -20,7 +20,7 @@ def main():
         if a.startswith('h_') or a.startswith('ht_'):
             names.append(a)
         else:
-            names += [f for m, f, _ in build.harness_fns(os.path.join(build.VERIF, 'harness')) if m == a]
+            names += [f for m, f, _ in build.harness_fns(build.HDIR) if m == a]
     out = tempfile.mkdtemp(prefix='mirsym-run-')
     t = time.time()
     res = run.explore(eng, names, out, jobs=jobs, deadline=time.time() + 1500)
